@@ -247,6 +247,8 @@ func runC05(w *World, r *Report) {
 	// owned one truncation ago (funds that were spent since exist twice)
 	checkpointWritesEveryAddress(w, r, "checkpoint-replaces-every-record")
 	foldOnlyAdds(w, r, "checkpoint-fold-only-adds")
+	// a transfer that is folded into the checkpoint while its vertex stays live is counted twice: value is created
+	checkpointCountsOnlyTheWalked(w, r, "checkpoint-counts-only-the-walked")
 	// ---- 0b. the operands are worked on in place; a copy back into an operand is the undo of a failure, nothing else
 	r.rule("restore-only-on-failure", "in Supply / Transfer a copyFrom into an operand is followed only by error returns: the success path has updated the operands in place (a compute-on-copies-then-commit scheme overwrites one result with the other when both operands are the same object)", 2)
 	for _, spec := range [][2]string{{"Melange", "Supply"}, {"", "Transfer"}} {
@@ -577,90 +579,7 @@ func runC05(w *World, r *Report) {
 	// ---- the sink of a Drain is scratch space of that one computation
 	drainSinkPrivate(w, r, "drain-sink-is-private")
 
-	// ---- 2. canonical amounts only
-	r.rule("canonicality-predicate", "a predicate exists whose result is decided by SupplementaryCurrency < 10^18", 1)
-	var preds []string
-	for _, fn := range w.RepoFuncs("spice") {
-		if fn.Parent() != nil || fn.Signature.Results().Len() != 1 {
-			continue
-		}
-		if b, ok := fn.Signature.Results().At(0).Type().Underlying().(*types.Basic); !ok || b.Kind() != types.Bool {
-			continue
-		}
-		rets := returnsOf(fn)
-		if len(rets) != 1 {
-			continue
-		}
-		bo, ok := rets[0].Results[0].(*ssa.BinOp)
-		if !ok || bo.Op != token.LSS {
-			continue
-		}
-		k, isK := intConst(bo.Y)
-		if !isK || k != K || !strings.HasSuffix(pathOf(bo.X), ".SupplementaryCurrency") {
-			continue
-		}
-		preds = append(preds, refFuncFullName(fn.Object().(*types.Func)))
-		r.ok("canonicality-predicate", shortFn(fn), w.Pos(fn.Pos()), "true ⇔ supplementary < 10^18")
-	}
-	if len(preds) == 0 {
-		r.bad("canonicality-predicate", "spice", "-", "no function in package spice decides canonicality", "none found")
-	}
-	canon := func(recv string) gspec {
-		return func(fn *ssa.Function, res resolver) []Edge {
-			var es []Edge
-			for _, c := range callsTo(fn, preds...) {
-				rv, _ := callArgs(c)
-				if rv != nil && res(rv) == recv {
-					es = append(es, passBool(c, 0, true)...)
-				}
-			}
-			return es
-		}
-	}
-	r.rule("canonical-at-entry", "every admission entry inserts (or hands to the admission path) only behind the pass edge of the canonicality predicate on the admitted amount", 4)
-	for _, row := range []struct{ fn, effect, amount string }{
-		{"CreateLeaf", nAddVertexByID, "$2.Spice"},
-		{"AddLeaf", cn("accountant", "*AccountingBook", "addLeafMemorized"), "$2.Transaction.Spice"},
-		{"LoadDag", nAddVertexByID, "@vertex.Transaction.Spice"},
-		{"CreateGenesis", nAddVertexByID, "$2"},
-	} {
-		f := w.fx(r, "accountant", "AccountingBook", row.fn)
-		if f == nil {
-			continue
-		}
-		effs := deepCalls(f.fn, byName(row.effect), deepDepth)
-		if len(effs) == 0 {
-			r.bad("canonical-at-entry", row.fn+"/effect", w.Pos(f.fn.Pos()), "the admission entry inserts (or hands on) a vertex", "no call of "+row.effect)
-		}
-		for _, ed := range effs {
-			eff := ed.c
-			amount := row.amount
-			if strings.HasPrefix(amount, "$2") {
-				amount = f.fn.Params[2].Name() + strings.TrimPrefix(amount, "$2")
-			}
-			if strings.HasPrefix(amount, "@vertex") {
-				_, a := callArgs(eff)
-				amount = ed.path(a[1]) + strings.TrimPrefix(amount, "@vertex")
-			}
-			ok := behindDeepSite(ed, canon(amount))
-			extra := ""
-			if row.fn == "CreateGenesis" {
-				// the checked amount is the one that goes into the genesis transaction
-				bound := false
-				for _, d := range deepCalls(f.fn, byName(cn("transaction", "", "New")), 1) {
-					_, a := callArgs(d.c)
-					if d.path(a[1]) == amount {
-						bound = true
-					}
-				}
-				ok = ok && bound
-				extra = fmt.Sprintf(" (amount passed to transaction.New: %v)", bound)
-			}
-			r.check(ok, "canonical-at-entry", row.fn+"/"+amount, lineOf(w, eff), shortCallee(eff)+" only behind IsCanonical("+amount+") == true", "admission reachable without the canonicality test"+extra)
-		}
-	}
-	// the mappers copy raw values: the guard above is the only barrier (informational)
-	r.Extra["canonicality_predicates"] = preds
+	canonicalAtEntry(w, r)
 }
 
 // ---------------------------------------------------------------------------------------------
@@ -701,6 +620,9 @@ func runC06(w *World, r *Report) {
 	r.NotDecided = []string{"numerical equality of the result with the reference sum", "agreement across nodes holding the same vertex set", "which tip is chosen when several exist (map iteration order)"}
 	// the balance is a walk over the ancestors: the edges of an admitted vertex are the ancestry
 	everyParentLinked(w, r, "every-looked-up-parent-is-linked")
+	// after a truncation the balance is the checkpoint plus the walk over what stayed live: each transfer is in exactly one
+	checkpointCountsOnlyTheWalked(w, r, "checkpoint-counts-only-the-walked")
+	saveWhatIsCounted(w, r, truncateModel(w))
 	dagW := dagWriters(w)
 	r.Extra["dag_writer_methods"] = len(dagW)
 	r.rule("queries-read-only", "no mutator (graph writer, badger write, cache write, exclusive ledger lock, store to a ledger field) is reachable from a read entry point", 4)
@@ -955,6 +877,7 @@ func runC07(w *World, r *Report) {
 	// a received vertex that is not linked to a parent it declares is a root for validateLeaf: after a truncation (the parent
 	// checkpointed) it would be validated against nothing, before it against the full history
 	everyParentLinked(w, r, "every-looked-up-parent-is-linked")
+	checkpointCountsOnlyTheWalked(w, r, "checkpoint-counts-only-the-walked")
 
 	// the other side of the exclusion: whoever reads the checkpointed funds holds the ledger lock, so that
 	// the checkpoint it sees and the DAG it walks belong to the same side of a truncation
@@ -1212,8 +1135,49 @@ func capturedValue(fv *ssa.FreeVar) ssa.Value {
 		}
 	case *ssa.FreeVar:
 		return capturedValue(b)
+	case *ssa.MakeClosure:
+		return b
 	}
 	return nil
+}
+
+// calleeOf: the function a call runs — its static callee, or the function literal behind a local function value
+// (a literal called directly, through the variable it was assigned to once, or through a variable captured by
+// another literal).
+func calleeOf(c ssa.CallInstruction) *ssa.Function {
+	if cal := c.Common().StaticCallee(); cal != nil {
+		return cal
+	}
+	if c.Common().IsInvoke() {
+		return nil
+	}
+	var resolve func(v ssa.Value, d int) *ssa.Function
+	resolve = func(v ssa.Value, d int) *ssa.Function {
+		if d > 4 || v == nil {
+			return nil
+		}
+		switch x := v.(type) {
+		case *ssa.MakeClosure:
+			if f, ok := x.Fn.(*ssa.Function); ok {
+				return f
+			}
+		case *ssa.FreeVar:
+			return resolve(capturedValue(x), d+1)
+		case *ssa.UnOp:
+			if al, ok := x.X.(*ssa.Alloc); ok && x.Op == token.MUL && storeCount(al) == 1 {
+				for _, ref := range *al.Referrers() {
+					if st, ok := ref.(*ssa.Store); ok && st.Addr == ssa.Value(al) {
+						return resolve(st.Val, d+1)
+					}
+				}
+			}
+			if fv, ok := x.X.(*ssa.FreeVar); ok && x.Op == token.MUL {
+				return resolve(capturedValue(fv), d+1)
+			}
+		}
+		return nil
+	}
+	return resolve(c.Common().Value, 0)
 }
 
 // shapeChain: the call sites through which the helper that holds the value under examination was reached.
@@ -1740,4 +1704,97 @@ func foldOnlyAdds(w *World, r *Report, rule string) {
 		bad += " the walk delivers a wallet's spend before the funding that paid for it: the failed subtraction is lost"
 	}
 	r.check(bad == "" && len(adds) > 0, rule, "fundsMemMap.nextVertex/mutators", w.Pos(nv.Pos()), fmt.Sprintf("the per-vertex fold adds (%d Supply calls) and never subtracts", len(adds)), bad)
+}
+
+// canonicalAtEntry: amounts that are not canonical never enter the ledger — the sums of the funds validation (C01) and
+// of the balance are Supply chains, which are exact on canonical amounts only (shared by C01 and C05).
+func canonicalAtEntry(w *World, r *Report) {
+	K := int64(0)
+	if c, ok := w.Pkg("spice").Pkg.Scope().Lookup("MaxAmountPerSupplementaryCurrency").(*types.Const); ok {
+		K, _ = constant.Int64Val(c.Val())
+	}
+	// ---- 2. canonical amounts only
+	r.rule("canonicality-predicate", "a predicate exists whose result is decided by SupplementaryCurrency < 10^18", 1)
+	var preds []string
+	for _, fn := range w.RepoFuncs("spice") {
+		if fn.Parent() != nil || fn.Signature.Results().Len() != 1 {
+			continue
+		}
+		if b, ok := fn.Signature.Results().At(0).Type().Underlying().(*types.Basic); !ok || b.Kind() != types.Bool {
+			continue
+		}
+		rets := returnsOf(fn)
+		if len(rets) != 1 {
+			continue
+		}
+		bo, ok := rets[0].Results[0].(*ssa.BinOp)
+		if !ok || bo.Op != token.LSS {
+			continue
+		}
+		k, isK := intConst(bo.Y)
+		if !isK || k != K || !strings.HasSuffix(pathOf(bo.X), ".SupplementaryCurrency") {
+			continue
+		}
+		preds = append(preds, refFuncFullName(fn.Object().(*types.Func)))
+		r.ok("canonicality-predicate", shortFn(fn), w.Pos(fn.Pos()), "true ⇔ supplementary < 10^18")
+	}
+	if len(preds) == 0 {
+		r.bad("canonicality-predicate", "spice", "-", "no function in package spice decides canonicality", "none found")
+	}
+	canon := func(recv string) gspec {
+		return func(fn *ssa.Function, res resolver) []Edge {
+			var es []Edge
+			for _, c := range callsTo(fn, preds...) {
+				rv, _ := callArgs(c)
+				if rv != nil && res(rv) == recv {
+					es = append(es, passBool(c, 0, true)...)
+				}
+			}
+			return es
+		}
+	}
+	r.rule("canonical-at-entry", "every admission entry inserts (or hands to the admission path) only behind the pass edge of the canonicality predicate on the admitted amount", 4)
+	for _, row := range []struct{ fn, effect, amount string }{
+		{"CreateLeaf", nAddVertexByID, "$2.Spice"},
+		{"AddLeaf", cn("accountant", "*AccountingBook", "addLeafMemorized"), "$2.Transaction.Spice"},
+		{"LoadDag", nAddVertexByID, "@vertex.Transaction.Spice"},
+		{"CreateGenesis", nAddVertexByID, "$2"},
+	} {
+		f := w.fx(r, "accountant", "AccountingBook", row.fn)
+		if f == nil {
+			continue
+		}
+		effs := deepCalls(f.fn, byName(row.effect), deepDepth)
+		if len(effs) == 0 {
+			r.bad("canonical-at-entry", row.fn+"/effect", w.Pos(f.fn.Pos()), "the admission entry inserts (or hands on) a vertex", "no call of "+row.effect)
+		}
+		for _, ed := range effs {
+			eff := ed.c
+			amount := row.amount
+			if strings.HasPrefix(amount, "$2") {
+				amount = f.fn.Params[2].Name() + strings.TrimPrefix(amount, "$2")
+			}
+			if strings.HasPrefix(amount, "@vertex") {
+				_, a := callArgs(eff)
+				amount = ed.path(a[1]) + strings.TrimPrefix(amount, "@vertex")
+			}
+			ok := behindDeepSite(ed, canon(amount))
+			extra := ""
+			if row.fn == "CreateGenesis" {
+				// the checked amount is the one that goes into the genesis transaction
+				bound := false
+				for _, d := range deepCalls(f.fn, byName(cn("transaction", "", "New")), 1) {
+					_, a := callArgs(d.c)
+					if d.path(a[1]) == amount {
+						bound = true
+					}
+				}
+				ok = ok && bound
+				extra = fmt.Sprintf(" (amount passed to transaction.New: %v)", bound)
+			}
+			r.check(ok, "canonical-at-entry", row.fn+"/"+amount, lineOf(w, eff), shortCallee(eff)+" only behind IsCanonical("+amount+") == true", "admission reachable without the canonicality test"+extra)
+		}
+	}
+	// the mappers copy raw values: the guard above is the only barrier (informational)
+	r.Extra["canonicality_predicates"] = preds
 }
